@@ -74,18 +74,26 @@ Theorem C17_cond2arithm_same_closed_forms :
 Proof. exact cond2arithm_same_closed_forms. Qed.
 Print Assumptions C17_cond2arithm_same_closed_forms.
 
-(* the faithful model of the isinstance chain loses a conditioned Sin/Cos/Exp assignment ... *)
-Theorem C17_cond2arithm_drops_functional_refuted :
-  ~ (forall T u l l', c2ax_list T u l = Some l' -> forall x, In x (map xvar l) -> In x (map xvar l')).
-Proof. exact cond2arithm_drops_functional_refuted. Qed.
-Print Assumptions C17_cond2arithm_drops_functional_refuted.
+(* OLD RULE (before /repo 0c1450d): the faithful model of the isinstance chain lost a conditioned
+   Sin/Cos/Exp assignment (found by this check) ... *)
+Theorem C17_cond2arithm_drops_functional_old_rule_refuted :
+  ~ (forall T u l l', c2ax_old_list T u l = Some l' -> forall x, In x (map xvar l) -> In x (map xvar l')).
+Proof. exact cond2arithm_drops_functional_old_rule_refuted. Qed.
+Print Assumptions C17_cond2arithm_drops_functional_old_rule_refuted.
 
 (* ... and nothing else *)
 Theorem C17_cond2arithm_keeps_poly_and_draws :
   forall T u a r, (match a with XFunc _ _ _ _ _ => False | _ => True end) ->
-    c2ax T u a = Some r -> In (xvar a) (map xvar r).
+    c2ax_old T u a = Some r -> In (xvar a) (map xvar r).
 Proof. exact cond2arithm_keeps_poly_and_draws. Qed.
 Print Assumptions C17_cond2arithm_keeps_poly_and_draws.
+
+(* RULE AS REPAIRED (if / elif / else: keep): every assigned variable of every program is still
+   assigned after the pass *)
+Theorem C17_cond2arithm_keeps_every_variable :
+  forall T u l l', c2ax_list T u l = Some l' -> forall x, In x (map xvar l) -> In x (map xvar l').
+Proof. exact cond2arithm_list_keeps_every_variable. Qed.
+Print Assumptions C17_cond2arithm_keeps_every_variable.
 
 (* ---- solver choice ---------------------------------------------------------------------------- *)
 Theorem C17_solvers_agree :
